@@ -15,6 +15,7 @@ int  cfg_n(const cfg_t *c);
 int  cfg_is_rs(const cfg_t *c);            /* rs_vand or isa-l: MDS-style, tolerance m */
 int  cfg_tol(const cfg_t *c);              /* max erasures guaranteed: m (RS) / hd-1 (XOR) */
 void cfg_key(const cfg_t *c, char *buf, size_t n);   /* "rs_vand|k=4,m=2,hd=2,ct=2" */
+void cfg_use(const cfg_t *c);             /* point the size models at this configuration (word size) */
 int  lec_create(const cfg_t *c);           /* returns descriptor or negative rc */
 uint32_t lec_backend_version(int be);      /* read from the exported backend descriptor */
 
@@ -104,4 +105,16 @@ int  std_lengths(const cfg_t *c, uint64_t *lens, int *kinds, int max, int few);
  * neighbourhoods of 64, 128 and 1024 bytes (region loops of 4/8/16-byte words with byte tails) */
 int  payload_sweep_lengths(const cfg_t *c, uint64_t *lens, int *kinds, int max);
 
+
+/* ---- legacy-CRC environment switch, toggled in place (no setenv/unsetenv after start-up, so a concurrent getenv in
+ * the noise thread never sees environ being reallocated).  mode: 0 unset, 1 "", 2 "0", 3 "1", 4 "yes" ---- */
+void lec_env_legacy(int mode);
+
+/* ---- noise thread (--noise 1): a second thread that keeps using the library - on its own instances of several
+ * backends AND on the instance/stripe the main thread currently works on - without judging anything.  The main
+ * thread's oracles then see whether results depend on what other threads do (hidden static or per-instance state). ---- */
+void noise_start(void);
+void noise_stop(void);
+void noise_publish(int desc, const cfg_t *c, const stripe_t *s);   /* the main thread's current instance + stripe */
+void noise_unpublish(void);                                         /* returns after the noise thread let go of it */
 #endif
